@@ -87,6 +87,10 @@ func bytesCodec(c *Case) map[string]any {
 		v, e := callFnVM(vm, php.NewBase64EncodeFunction(), in)
 		strObs(out, v, e)
 		out["ref"] = hex.EncodeToString([]byte(base64.StdEncoding.EncodeToString(b)))
+		if sv, ok := v.(*data.StringValue); ok {
+			d, err := base64.StdEncoding.Strict().DecodeString(sv.Value)
+			out["refback"] = err == nil && string(d) == string(b)
+		}
 	case "base64_decode":
 		v, e := callFnVM(vm, php.NewBase64DecodeFunction(), in)
 		strObs(out, v, e)
@@ -99,10 +103,19 @@ func bytesCodec(c *Case) map[string]any {
 		v, e := callFnVM(vm, php.NewBin2hexFunction(), in)
 		strObs(out, v, e)
 		out["ref"] = hex.EncodeToString([]byte(hex.EncodeToString(b)))
+		if sv, ok := v.(*data.StringValue); ok {
+			d, err := hex.DecodeString(sv.Value)
+			out["refback"] = err == nil && string(d) == string(b)
+		}
 	case "urlencode":
 		v, e := callFnVM(vm, php.NewUrlencodeFunction(), in)
 		strObs(out, v, e)
 		out["ref"] = hex.EncodeToString([]byte(url.QueryEscape(string(b))))
+		if sv, ok := v.(*data.StringValue); ok {
+			// a query-string reader: split a=<value> at & and =, unescape
+			q, err := url.ParseQuery("a=" + sv.Value)
+			out["refback"] = err == nil && len(q) == 1 && len(q["a"]) == 1 && q["a"][0] == string(b)
+		}
 	case "urldecode":
 		v, e := callFnVM(vm, php.NewUrldecodeFunction(), in)
 		strObs(out, v, e)
@@ -114,7 +127,13 @@ func bytesCodec(c *Case) map[string]any {
 	case "rawurlencode":
 		v, e := callFnVM(vm, php.NewRawurlencodeFunction(), in)
 		strObs(out, v, e)
-		out["ref"] = hex.EncodeToString([]byte(url.PathEscape(string(b))))
+		out["ref"] = hex.EncodeToString([]byte(rfc3986Escape(b)))
+		if sv, ok := v.(*data.StringValue); ok {
+			// read back both as a path segment and as a query value
+			d, err := url.PathUnescape(sv.Value)
+			q, err2 := url.ParseQuery("a=" + sv.Value)
+			out["refback"] = err == nil && d == string(b) && err2 == nil && len(q) == 1 && len(q["a"]) == 1 && q["a"][0] == string(b)
+		}
 	case "rawurldecode":
 		v, e := callFnVM(vm, php.NewRawurldecodeFunction(), in)
 		strObs(out, v, e)
@@ -158,4 +177,18 @@ func bytesCodec(c *Case) map[string]any {
 		return map[string]any{"harness_error": "f " + c.F}
 	}
 	return out
+}
+
+// RFC 3986 section 2: percent-encode everything outside ALPHA / DIGIT / "-" / "." / "_" / "~"
+func rfc3986Escape(b []byte) string {
+	const hexd = "0123456789ABCDEF"
+	var out []byte
+	for _, c := range b {
+		if 'a' <= c && c <= 'z' || 'A' <= c && c <= 'Z' || '0' <= c && c <= '9' || c == '-' || c == '.' || c == '_' || c == '~' {
+			out = append(out, c)
+		} else {
+			out = append(out, '%', hexd[c>>4], hexd[c&15])
+		}
+	}
+	return string(out)
 }
